@@ -92,6 +92,11 @@ struct Builder {
       if (k % 5 != 0) ++located;
       // some statements carry no location (file 0), some no column
       if (k % 5 == 0) return { };
+      // one location in seven has coordinates at the width boundaries of its 32-bit fields (generated sources, #line directives)
+      if (k % 7 == 3) {
+         const std::uint32_t big[] = { 999999999u, 1000000000u, 2147483647u, 2147483648u, 4294967295u };
+         return { ipr::Line_number{ big[k % 5] - (k / 7) % 1000000u }, ipr::Column_number{ big[(k / 3) % 5] }, ipr::File_index{ big[(k / 2) % 5] } };   // distinct for distinct k
+      }
       return { ipr::Line_number{ 10 + k }, ipr::Column_number{ k % 3 == 0 ? 0 : 1 + k % 60 }, ipr::File_index{ 1 + k % 4 } };
    }
 
